@@ -51,9 +51,14 @@ def ddmin_ops(mod, scenario, sig, max_execs=400):
     # property-specific argument simplification
     simp = getattr(mod, 'simplify', None)
     if simp is not None:
-        for cand in simp(copy.deepcopy(out)):
-            if budget[0] <= 0:
-                break
-            if _fails_same(mod, cand, sig, budget):
-                out = cand
+        progress = True
+        while progress and budget[0] > 0:
+            progress = False
+            for cand in simp(copy.deepcopy(out)):
+                if budget[0] <= 0:
+                    break
+                if _fails_same(mod, cand, sig, budget):
+                    out = cand
+                    progress = True
+                    break
     return out
